@@ -51,7 +51,16 @@ func c18Conflict(model map[string][]byte, name string) bool {
 }
 
 func c18List(t *rapid.T, b BucketHandle, prefix string) []string {
-	it := b.Objects(context.Background(), prefix)
+	out, err := c18ListCtx(t, context.Background(), b, prefix)
+	if err != nil {
+		t.Fatalf("listing %q: %v", prefix, err)
+	}
+	return out
+}
+
+// c18ListCtx lists under the given context. A listing either reports an error or is complete.
+func c18ListCtx(t *rapid.T, ctx context.Context, b BucketHandle, prefix string) ([]string, error) {
+	it := b.Objects(ctx, prefix)
 	var out []string
 	for i := 0; ; i++ {
 		n, err := it.Next()
@@ -59,7 +68,7 @@ func c18List(t *rapid.T, b BucketHandle, prefix string) []string {
 			break
 		}
 		if err != nil {
-			t.Fatalf("listing %q: %v", prefix, err)
+			return nil, err
 		}
 		if i > 100000 {
 			t.Fatalf("listing %q does not end", prefix)
@@ -67,7 +76,7 @@ func c18List(t *rapid.T, b BucketHandle, prefix string) []string {
 		out = append(out, n)
 	}
 	sort.Strings(out)
-	return out
+	return out, nil
 }
 
 func TestVerifC18Bucket(t *testing.T) {
@@ -90,7 +99,7 @@ func TestVerifC18Bucket(t *testing.T) {
 		w.Write([]byte("sibling"))
 		w.Close()
 		model := map[string][]byte{}
-		overwrote, partial, conflictSeen, copied := false, false, false, false
+		overwrote, partial, conflictSeen, copied, abandoned := false, false, false, false, false
 		var trace []string
 		t.Repeat(map[string]func(*rapid.T){
 			"write": func(t *rapid.T) {
@@ -124,6 +133,31 @@ func TestVerifC18Bucket(t *testing.T) {
 				model[name] = data
 				trace = append(trace, "write("+name+")")
 			},
+			"abandonThenWrite": func(t *rapid.T) {
+				// a writer that is never closed (its process died), followed by a complete write of the same
+				// object: exactly that object exists afterwards, with the bytes of the complete write
+				name := c18Name().Draw(t, "name")
+				if c18Conflict(model, name) {
+					return
+				}
+				data := rapid.SliceOfN(rapid.Byte(), 0, 40).Draw(t, "data")
+				if w1, err := b.Object(name).NewWriter(ctx); err == nil {
+					w1.Write([]byte("partial contents of an interrupted upload"))
+				}
+				wr, err := b.Object(name).NewWriter(ctx)
+				if err == nil {
+					_, err = wr.Write(data)
+					if cerr := wr.Close(); err == nil {
+						err = cerr
+					}
+				}
+				if err != nil {
+					t.Fatalf("writing %q after an abandoned writer: %v", name, err)
+				}
+				model[name] = data
+				abandoned = true
+				trace = append(trace, "abandon+write("+name+")")
+			},
 			"copy": func(t *rapid.T) {
 				// Copy (what the worker's copy handler does) writes the destination; afterwards the two
 				// objects are independent: overwriting one must not change the other
@@ -156,6 +190,10 @@ func TestVerifC18Bucket(t *testing.T) {
 				trace = append(trace, "copy("+src+"->"+dst+")")
 			},
 			"": func(t *rapid.T) {
+				// the bucket lists exactly the stored names
+				if got, want := c18List(t, b, ""), keys(model); strings.Join(got, "\n") != strings.Join(want, "\n") {
+					t.Fatalf("after %v: the bucket lists %v, stored are %v", trace, got, want)
+				}
 				// every stored object still reads back as last written
 				for name, want := range model {
 					r, err := b.Object(name).NewReader(ctx)
@@ -223,7 +261,27 @@ func TestVerifC18Bucket(t *testing.T) {
 						prefix = k[:min(cut, len(k))]
 					}
 				}
-				got := c18List(t, b, prefix)
+				// the handlers list under request contexts, which may be cancelled or past their deadline:
+				// such a listing may fail, but it must not silently come out short
+				lctx := context.Background()
+				switch rapid.IntRange(0, 5).Draw(t, "listContext") {
+				case 0:
+					c, cancel := context.WithCancel(context.Background())
+					cancel()
+					lctx = c
+				case 1:
+					c, cancel := context.WithDeadline(context.Background(), time.Unix(1, 0))
+					defer cancel()
+					lctx = c
+				}
+				got, lerr := c18ListCtx(t, lctx, b, prefix)
+				if lerr != nil {
+					if lctx.Err() == nil {
+						t.Fatalf("listing %q: %v", prefix, lerr)
+					}
+					trace = append(trace, fmt.Sprintf("list(%q)=error under a done context", prefix))
+					return
+				}
 				var want []string
 				for k := range model {
 					if strings.HasPrefix(k, prefix) {
@@ -252,7 +310,7 @@ func TestVerifC18Bucket(t *testing.T) {
 			t.Fatalf("sibling bucket changed: %v", got)
 		}
 		vstats.Case(fmt.Sprintf("bucket=%s ops=%v", bname, trace), partial && overwrote, fmt.Sprintf("partial:%v", partial),
-			fmt.Sprintf("overwrote:%v", overwrote), fmt.Sprintf("conflict:%v", conflictSeen), fmt.Sprintf("copied:%v", copied))
+			fmt.Sprintf("overwrote:%v", overwrote), fmt.Sprintf("conflict:%v", conflictSeen), fmt.Sprintf("copied:%v", copied), fmt.Sprintf("abandonedWriter:%v", abandoned))
 	})
 }
 
